@@ -1,5 +1,6 @@
 /- S-expression codecs for the shared model types (mirrors harness/main/codec.go). -/
 import Rdm.Model.Types
+import Rdm.Model.Listener
 namespace Rdm.Ops
 open Rdm
 variable {α : Type} [Num α]
@@ -57,6 +58,87 @@ def decBounding (e : SExp) : R (Bounding α) := do
   match e with
   | .list [s, n] => pure ⟨← s.asNum, ← n.asBool⟩
   | _ => throw s!"bad bounding {e}"
+
+def encLinFun (f : LinFun α) : SExp := .list [SExp.num f.a, SExp.num f.b]
+
+/-- `(k (qa qb) (pa pb) (va vb))` -/
+def decECrit (e : SExp) : R (ECrit α) := do
+  match e with
+  | .list [k, q, p, v] => pure ⟨← k.asNum, ← decLinFun q, ← decLinFun p, ← decLinFun v⟩
+  | _ => throw s!"bad electre criterion {e}"
+def encECrit (c : ECrit α) : SExp := .list [SExp.num c.k, encLinFun c.q, encLinFun c.p, encLinFun c.v]
+
+/-- `(coef c max min)` | `(thresholds (kmap ...))` -/
+def decLevels (e : SExp) : R (Levels α) := do
+  match e with
+  | .list [.atom "coef", c, mx, mn] => pure (.coef (← c.asNum) (← mx.asNum) (← mn.asNum))
+  | .list [.atom "thresholds", ts] => pure (.thresholds (← ts.mapList decNumMap))
+  | _ => throw s!"bad levels {e}"
+def encLevels : Levels α → SExp
+  | .coef c mx mn => .list [.atom "coef", SExp.num c, SExp.num mx, SExp.num mn]
+  | .thresholds ts => .list [.atom "thresholds", .list (ts.map encNumMap)]
+
+def decLvAdd (e : SExp) : R (LvAdd α) := do
+  match e with
+  | .list [.atom "none"] => pure .none
+  | .list [.atom "thresholds", ts] => pure (.thresholds (← ts.mapList decNumMap))
+  | _ => throw s!"bad levels addition {e}"
+def encLvAdd : LvAdd α → SExp
+  | .none => .list [.atom "none"]
+  | .thresholds ts => .list [.atom "thresholds", .list (ts.map encNumMap)]
+
+/-- method parameters, as printed by harness/main/params.go `paramsSX` -/
+def decMParams (e : SExp) : R (MParams α) := do
+  match e with
+  | .list [.atom "ws", wc] => pure (.ws (← wc.mapList decWCrit))
+  | .list [.atom "owa", wc] => pure (.owa (← wc.mapList decWCrit))
+  | .list [.atom "choquet", w, cs] => pure (.choquet (← decNumMap w) (← decCrits cs))
+  | .list [.atom "electre", ec, dist] => pure (.electre (← ec.asKMap decECrit) (← decLinFun dist))
+  | .list [.atom "majority", w, cur, seed, rnd, dr] =>
+    pure (.majority (← decNumMap w) (← cur.asStr) (← seed.asInt) (← rnd.asBool) (← dr.asStr))
+  | .list [.atom "aspect", fn, lv, seed, w, rnd] =>
+    pure (.aspect (← fn.asStr) (← decLevels lv) (← seed.asInt) (← decNumMap w) (← rnd.asBool))
+  | .list [.atom "satisf", fn, lv, seed, cur, rnd] =>
+    pure (.satisf (← fn.asStr) (← decLevels lv) (← seed.asInt) (← cur.asStr) (← rnd.asBool))
+  | _ => throw s!"bad method parameters {e}"
+
+def encMParams : MParams α → SExp
+  | .ws wc => .list [.atom "ws", .list (wc.map encWCrit)]
+  | .owa wc => .list [.atom "owa", .list (wc.map encWCrit)]
+  | .choquet w cs => .list [.atom "choquet", encNumMap w, encCrits cs]
+  | .electre ec dist => .list [.atom "electre", SExp.kmap ec encECrit, encLinFun dist]
+  | .majority w cur seed rnd dr =>
+    .list [.atom "majority", encNumMap w, SExp.str cur, SExp.int seed, SExp.bool rnd, SExp.str dr]
+  | .aspect fn lv seed w rnd =>
+    .list [.atom "aspect", SExp.str fn, encLevels lv, SExp.int seed, encNumMap w, SExp.bool rnd]
+  | .satisf fn lv seed cur rnd =>
+    .list [.atom "satisf", SExp.str fn, encLevels lv, SExp.int seed, SExp.str cur, SExp.bool rnd]
+
+/-- additions, as printed by `additionSX` -/
+def encAddition : Addition α → SExp
+  | .ws wc => .list [.atom "ws", .list (wc.map encWCrit)]
+  | .weightType w => .list [.atom "weightType", encNumMap w]
+  | .choquet w cs => .list [.atom "choquet", encNumMap w, encCrits cs]
+  | .electre ec => .list [.atom "electre", SExp.kmap ec encECrit]
+  | .aspect w la => .list [.atom "aspect", encNumMap w, encLvAdd la]
+  | .satisf la => .list [.atom "satisf", encLvAdd la]
+
+def decAddition (e : SExp) : R (Addition α) := do
+  match e with
+  | .list [.atom "ws", wc] => pure (.ws (← wc.mapList decWCrit))
+  | .list [.atom "weightType", w] => pure (.weightType (← decNumMap w))
+  | .list [.atom "choquet", w, cs] => pure (.choquet (← decNumMap w) (← decCrits cs))
+  | .list [.atom "electre", ec] => pure (.electre (← ec.asKMap decECrit))
+  | .list [.atom "aspect", w, la] => pure (.aspect (← decNumMap w) (← decLvAdd la))
+  | .list [.atom "satisf", la] => pure (.satisf (← decLvAdd la))
+  | _ => throw s!"bad addition {e}"
+
+/-- `(nc co crit mp)` — a `DecisionMakingParams` -/
+def decDMP (e : SExp) : R (DMP α) := do
+  match e with
+  | .list [nc, co, cs, mp] => pure ⟨← decAlts nc, ← decAlts co, ← decCrits cs, ← decMParams mp⟩
+  | _ => throw s!"bad dmp {e}"
+def encDMP (d : DMP α) : SExp := .list [encAlts d.nc, encAlts d.co, encCrits d.crit, encMParams d.mp]
 
 /-- result of a stage that may panic in Go: `(ok v)` / `(err)`; the harness prints the same -/
 def encR {β} (r : R β) (f : β → SExp) : SExp :=
